@@ -838,6 +838,65 @@ fn iterative_fits_stopped_early() -> Result<Fp, String> {
     Ok(fp)
 }
 
+// ---------- further members of the estimator families (non-default metric / element type / variant) ----------
+fn pls_svd() -> Result<Fp, String> {
+    use linfa_pls::PlsSvd;
+    let (x, y) = regression(60, 4, 2, 27);
+    let ds = Dataset::new(x.clone(), y.clone());
+    let mut fp = Fp::new();
+    for scale in [true, false] {
+        let m = PlsSvd::<f64>::params(2).scale(scale).fit(&ds).map_err(e)?;
+        b2(&mut fp, m.weights().0);
+        b2(&mut fp, m.weights().1);
+        let t = m.transform(Dataset::new(x.clone(), y.clone()));
+        b2(&mut fp, t.records());
+        b2(&mut fp, t.targets());
+    }
+    Ok(fp)
+}
+fn kmeans_l1_big_f32() -> Result<Fp, String> {
+    use linfa_clustering::{KMeans, KMeansInit};
+    use linfa_nn::distance::L1Dist;
+    let (x, _) = blobs(2000, 3, 4, 13);
+    let x32 = x.mapv(|v| v as f32);
+    let ds = Dataset::from(x32.clone());
+    let m = KMeans::params_with(4, rng(9), L1Dist).init_method(KMeansInit::KMeansPlusPlus).n_runs(2).max_n_iterations(15).fit(&ds).map_err(e)?;
+    let mut fp = Fp::new();
+    b2f32(&mut fp, m.centroids());
+    fp.push(m.inertia().to_bits() as u64);
+    bu(&mut fp, m.predict(&x32).as_slice().unwrap());
+    Ok(fp)
+}
+fn kernels_sparse_all_indices() -> Result<Fp, String> {
+    use linfa_kernel::{Kernel, KernelMethod, KernelType};
+    use linfa_nn::CommonNearestNeighbour;
+    // a lattice: many exactly equidistant neighbours, so the neighbour choice under ties must be reproducible
+    let x = Array2::from_shape_fn((49, 2), |(i, j)| if j == 0 { (i % 7) as f64 } else { (i / 7) as f64 });
+    let mut fp = Fp::new();
+    for nn in [CommonNearestNeighbour::LinearSearch, CommonNearestNeighbour::KdTree, CommonNearestNeighbour::BallTree] {
+        let k = Kernel::params().kind(KernelType::Sparse(3)).method(KernelMethod::Gaussian(1.0)).nn_algo(nn).transform(x.view());
+        b1(&mut fp, &k.sum());
+        b1(&mut fp, &k.diagonal());
+        b2(&mut fp, &k.dot(&x.view()));
+    }
+    Ok(fp)
+}
+fn svm_poly_f32_and_logistic_f32() -> Result<Fp, String> {
+    use linfa_logistic::LogisticRegression;
+    use linfa_svm::Svm;
+    let (x, y) = blobs(80, 2, 2, 35);
+    let x32 = x.mapv(|v| v as f32);
+    let ds = Dataset::new(x32.clone(), y.mapv(|c| c == 1));
+    let mut fp = Fp::new();
+    let m = Svm::<f32, bool>::params().pos_neg_weights(1.0, 2.0).polynomial_kernel(1.0, 2.0).fit(&ds).map_err(e)?;
+    fp.extend(m.predict(&x32).iter().map(|&b| b as u64));
+    fp.push(m.nsupport() as u64);
+    let m = LogisticRegression::default().alpha(1.0).max_iterations(50).fit(&ds).map_err(e)?;
+    fp.extend(m.params().iter().map(|v| v.to_bits() as u64));
+    fp.extend(m.predict_probabilities(&x32).iter().map(|v| v.to_bits() as u64));
+    Ok(fp)
+}
+
 pub fn registry() -> Vec<Entry> {
     macro_rules! ent {
         ($($f:ident),* $(,)?) => { vec![$(Entry { name: stringify!($f), run: $f }),*] };
@@ -853,6 +912,7 @@ pub fn registry() -> Vec<Entry> {
         gaussian_nb_ties, gaussian_nb_blobs, multinomial_nb_ties, ftrl_default_seed,
         pca, random_projections, diffusion_map, fast_ica_seeded,
         diffusion_map_slowly_converging, pca_hard, iterative_fits_stopped_early,
+        pls_svd, kmeans_l1_big_f32, kernels_sparse_all_indices, svm_poly_f32_and_logistic_f32,
         scalers, whiteners, vectorizers, platt, one_vs_all_and_confusion, multiclass_svm_one_vs_all,
     ]
 }
